@@ -92,6 +92,10 @@ static void do_op(int k, int op, size_t l1, size_t l2, size_t l3, size_t rdlen, 
 		dns_ex_flags_t ef;
 		ef.u16 = 0;
 		V_ASSUME(in->opt_do <= 1 && in->opt_z_hi <= 0x7f);
+#ifdef KF_DNS_OPT_RCODE_VERSION_ORDER
+		/* known finding: dns_opt_rr_t stores VERSION before EXTENDED-RCODE (RFC: the other way round) */
+		V_ASSUME(in->version == in->ex_rcode);
+#endif
 		ef.bits.d0 = in->opt_do; ef.bits._zero0 = in->opt_z_hi; ef.bits.z = in->opt_z_lo;
 		fl = ef.u16;
 		ref[ref_len++] = 0; put16(41); put16(in->udp);
